@@ -7,6 +7,7 @@ import BqVerif.Proofs.IntegrityNet
 import BqVerif.Proofs.RetOnceNet
 import BqVerif.Model.RuntimeWitness
 import BqVerif.Proofs.Wake
+import BqVerif.Proofs.SchedExact
 /-!
 # C07 — every awaited runtime future resolves exactly once with its own result
 
@@ -288,6 +289,75 @@ example :
     ∧ (ops.foldl (Worker.applyOp tbl) { id := 0 }).tasks = []
     ∧ (ops.foldl (Worker.applyOp tbl) { id := 0 }).boxes = [] := by
   refine ⟨okRunB_sound _ _ _ (by decide +kernel), by decide +kernel, by decide +kernel⟩
+
+/-- **Manager trees: a manager neither loses nor duplicates a task or a result.**  For every
+    message a `Manager` handles without reporting an error (`note = "ok"`: the observed assignment
+    is a legal outcome of `assign_tasks`, no system error), and every address `a`: the number of
+    tasks / results with address `a` in the messages it sends (down to employees and up to the
+    server together) equals the number in the message it received.  In particular
+    `send_up_or_schedule_tasks` hands each task either to exactly one employee or, in the
+    forwarded rest, to the server. -/
+theorem C07_T_manager_conserves (a : Addr) (g : Manager) (src : NodeId) (m : Msg) (asg : List Nat)
+    (hn : (g.handle src m asg).note = "ok") :
+    tokOut a (g.handle src m asg).direct + tokOut a (g.handle src m asg).queued = tokMsg a m :=
+  Manager.handle_conserves a g src m asg hn
+
+/-- **Manager trees: results are routed by id range.**  A RESULT coming from above is sent to the
+    employee responsible for `return_address.worker_id` (which `C07_R_routing` shows to be the
+    unique employee whose id range contains it) and to nobody else; a RESULT coming from below goes
+    down to the responsible employee (plus `UPDATE(-1)` upwards) when the destination is in this
+    manager's range, and is forwarded to the server unchanged otherwise. -/
+theorem C07_T_manager_routes_result (g : Manager) (x : Addr) (v : Val) (by_ : Int) (asg : List Nat) :
+    ((g.fromAbove (.result x v by_) asg).note = "ok" →
+      isMyWorker g.boss.lb g.boss.step g.boss.emps.length x.w = true ∧
+      ∃ ei, employeeFor g.boss.lb g.boss.step g.boss.emps.length x.w = some ei ∧
+        (g.fromAbove (.result x v by_) asg).queued = [((g.boss.emps.getD ei default).node, .result x v by_)])
+    ∧ (∀ ei0, (g.fromBelow ei0 (.result x v by_) asg).note = "ok" →
+      (isMyWorker g.boss.lb g.boss.step g.boss.emps.length x.w = false →
+        (g.fromBelow ei0 (.result x v by_) asg).queued = [(.server, .result x v by_)])
+      ∧ (isMyWorker g.boss.lb g.boss.step g.boss.emps.length x.w = true →
+        ∃ ei, employeeFor g.boss.lb g.boss.step g.boss.emps.length x.w = some ei ∧
+          (g.fromBelow ei0 (.result x v by_) asg).queued =
+            [((g.boss.emps.getD ei default).node, .result x v by_), (.server, .update (-1))])) := by
+  constructor
+  · intro hn
+    simp only [Manager.fromAbove] at hn ⊢
+    split
+    · rename_i hh; rw [if_pos hh] at hn; simp [Manager.systemError] at hn
+    · rename_i hh
+      rw [if_neg hh] at hn
+      refine ⟨by simpa using hh, ?_⟩
+      split
+      · rename_i h2; rw [h2] at hn; simp [Manager.systemError] at hn
+      · rename_i ei h2; exact ⟨ei, h2, rfl⟩
+  · intro ei0 hn
+    simp only [Manager.fromBelow] at hn ⊢
+    split
+    · rename_i hh; rw [hh] at hn; simp [Manager.systemError] at hn
+    · rename_i b' hh
+      rw [hh] at hn
+      obtain ⟨l1, l2, l3, hnode⟩ := completed_shape g.boss b' by_ hh
+      dsimp only at hn ⊢
+      rw [l1, l2, l3] at hn ⊢
+      refine ⟨fun hf => by simp [hf], fun ht => ?_⟩
+      rw [if_pos ht] at hn ⊢
+      split
+      · rename_i h2; rw [h2] at hn; simp [Manager.systemError] at hn
+      · rename_i ei h2
+        refine ⟨ei, h2, ?_⟩
+        simp only [hnode]
+
+/-- non-vacuity: a manager over two idle workers receives three tasks from below, schedules two
+    and sends the third up -/
+example :
+    let es : List Emp := [{ id := 0, total := 1, idle := 1 }, { id := 1, total := 1, idle := 1 }]
+    let b : Boss := { lb := 0, step := 1, numIdle := 2, total := 2, emps := es }
+    let g : Manager := { boss := b, idx := 0, lastSent := 2 }
+    let t : Nat → Task := fun i => { addr := ⟨0, 0, i⟩, comp := 0, crumbs := [], prog := 0, tag := [i] }
+    (g.handle (.wrk 0) (.batch [t 0, t 1, t 2]) [0, 1]).note = "ok"
+    ∧ ((g.handle (.wrk 0) (.batch [t 0, t 1, t 2]) [0, 1]).queued.map (·.1))
+        = [.server, .wrk 0, .wrk 1, .server, .server] := by
+  refine ⟨by decide, by decide⟩
 
 /-- **Line-level race (finding).** In the source-line model of `_process_await` ∥
     `_handle_result` the schedule in which the incoming thread handles the result of `f0`
